@@ -175,6 +175,12 @@ def main(ck, tier, w):
         big = rng.random() < 0.3
         txs_fn = (lambda h, c: chains.std_txs(h, c) + [fat_tx(h, rng_bytes=[40000, 70000, 140000][(i + h) % 3])]) if big else chains.std_txs
         blocks = chains.std_chain(n, coin, txs_fn=txs_fn)
+        if i % 4 == 1:
+            # length prefixes that do not tell the truth (a block is decoded structurally; the prefix is only reported): too small,
+            # too large, zero, all ones - the same in the plaintext and in the obfuscated directory
+            for k, b in enumerate(blocks):
+                ln = len(b['raw'])
+                b['size'] = [ln, max(81, ln - 1 - rng.randrange(ln // 2)), 100, ln + 1 + rng.randrange(5000), 0, 0xffffffff, 81, 8 * 2 ** 20 - 1][(i // 4 + k) % 8]
         placement = [(p['file'], p['slot']) for p in obs['lay']]
         fileno = {f: f for f in range(10)}
         keylen = rng.choice([1, 2, 3, 7, 8, 8, 8, 13, 32, 64])
